@@ -80,7 +80,7 @@ func loadOverlay(repo, tier string, extraEnv []string, tags []string, overlay ma
 	c, err := loadRaw(repo, tier, env, extraEnv, tags, merged)
 	if srcPkgs != nil {
 		if err == nil {
-			err = alphaEquivalent(srcPkgs, c.pkgs)
+			err = alphaEquivalent(srcPkgs, c.pkgs, ai.swapped)
 		}
 		if err != nil {
 			// analyse the tree under its own names instead
